@@ -158,7 +158,7 @@ PROPS = {
     ),
     "C03": dict(
         design_ref="DESIGN.md 4 (C03)",
-        level_text="Coq theorems over the printer regenerated from ast.go and the grammar specification: the printer's precedence of every node kind is its ECMAScript level (member 12 vs LeftHandSide 11 is never separated by a printer test); for EVERY assembled expression tree with arbitrary operands (callee/object positions call-level-or-tighter, simple assignment targets) the parentheses the printer writes make it a tree of the grammar (which the parser maps back to that tree by C02); it is the same tree up to grouping nodes, prints to the same compact text, and parenthesisation is idempotent. The text-to-tokens step (lexing of the printed output) is explored by the oracle with every parent/child operator pair to depth 3.",
+        level_text="Coq theorems over the printer regenerated from ast.go, the writer, lexer and parser models and the grammar specification: the printer's precedence of every node kind is its ECMAScript level (member 12 vs LeftHandSide 11 is never separated by a printer test); for EVERY assembled expression tree with arbitrary operands (callee/object positions call-level-or-tighter, simple assignment targets) the parentheses the printer writes make it a tree of the grammar; it is the same tree up to grouping nodes, prints to the same compact text, and parenthesisation is idempotent; and TEXT LEVEL: printing such a tree compactly (parentheses, fusion-avoiding blanks, re-quoted strings), lexing the text and parsing the tokens yields without error the parenthesised tree - the same tree up to grouping nodes, positions and comments - for all trees whose stored literals are lexer-producible (C03_print_parse_compact). Pretty configurations and statement-level assembled trees are explored by the oracle with every parent/child operator pair to depth 3 (KF4 dangling else on assembled trees is reported there).",
         level_note="Trusted: Coq kernel, translator xjs2v (WriteTo bodies, both precedence tables), extraction, harness/driver correspondence (print suite with assembled trees), Grammar.v. Modelled not verified: CodeWriter. Recorded findings on assembled trees: KF4 (dangling else); semicolons-off hazards KF1/KF2; KF3.",
         technique="Coq proof (tree induction against the grammar's level discipline) + model/implementation correspondence",
         suites=[dict(suite="print", n_quick=2000, n_thorough=50000, what="parser-produced and assembled trees x configurations: code, panic",
@@ -166,8 +166,8 @@ PROPS = {
                 dict(suite="parse", n_quick=1500, n_thorough=50000, what="re-parse side: trees, errors",
                      projection=POS_FREE)],
         oracle_n_quick=300, oracle_n_thorough=20000,
-        explanation="C03 (tree-level clauses): C03_precedences_agree, C03_parenthesised_is_wf, C03_same_tree, C03_same_text, C03_groupify_idempotent.",
-        open_statements=["C03_relex (the printed text lexes back to the token sequence of the parenthesised tree)", "byte-for-byte fixed point in pretty mode"],
+        explanation="C03: C03_precedences_agree, C03_parenthesised_is_wf, C03_same_tree, C03_same_text, C03_groupify_idempotent, C03_print_parse_compact.",
+        open_statements=["C03_print_parse_pretty (the round trip through pretty configurations): explored by the oracle; false with semicolons off (KF1, KF2)"],
     ),
     "C15": dict(
         design_ref="DESIGN.md 4 (C15)",
@@ -223,14 +223,14 @@ PROPS = {
     ),
     "C12": dict(
         design_ref="DESIGN.md 4 (C12)",
-        level_text="Coq theorem (causality of the one-token-lookahead parser, any mode / interceptors / operators): if a token list agrees with an accepted one on its first k tokens, every error reported for it - in particular the first - is located no earlier than token k-1, the last intact token before the corruption point. Together with C10 (an unterminated string or backtick literal is an ILLEGAL token, so truncation inside a literal is always reported) and C02 (the parser accepts the grammar). The clause 'a corrupted text that is not valid JavaScript is rejected' is explored by the oracle with node 20 as reference parser over every single-token deletion, separator removal and truncation of generated programs; the recorded findings KF6, KF7, KF9, KF11-KF16 are the shapes of invalid text xjs accepts (soundness w.r.t. the relaxed grammar GrammarLax.v is being proved).",
+        level_text="Coq theorems over the executable parser model: SOUNDNESS - whatever strict mode accepts without reporting an error (from any source text, or any token list without an interior end-of-input token) is a program of the relaxed grammar GrammarLax.v = the ECMAScript grammar of the subset (Grammar.v, validated against node 20) plus six explicit relaxations, each a recorded finding (KF6 assignment targets, KF7 member names, KF15 parameters, object keys, KF12 declarations as single statements, KF11 postfix expressions as callees); the relaxed grammar contains the strict one; CAUSALITY - if a token list agrees with an accepted one on its first k tokens, every error reported for it is located no earlier than token k-1 (any mode / interceptors / operators). With C10 (unterminated literals are ILLEGAL tokens) a corrupted text outside the relaxed grammar is never accepted silently. The oracle compares with node 20 over every single-token deletion, separator removal and truncation of generated programs and reports the recorded findings.",
         level_note="Trusted: Coq kernel, translator xjs2v, extraction, harness/driver correspondence (parse suite with token-level mutations). node 20 only in the search oracle. 'Valid JavaScript' in theorems means Grammar.v / GrammarLax.v, not an external parser.",
         technique="Coq proof (lockstep simulation of two parser runs with different fuels) + model/implementation correspondence; reference-engine oracle as search",
         suites=[dict(suite="parse", n_quick=3000, n_thorough=100000, what="sources incl. token-level mutations x 4 modes: tree, errors with ranges, flag"),
                 dict(suite="lex", n_quick=2000, n_thorough=100000, what="unterminated literals etc.: all token fields")],
         oracle_n_quick=150, oracle_n_thorough=5000, oracle_n_search=600,
-        explanation="C12: C12_error_not_early.",
-        open_statements=["C12_sound (accepted without error => in the relaxed grammar GrammarLax.v)", "C12_corruption_detected as its contrapositive"],
+        explanation="C12: C12_error_not_early, C12_sound, C12_sound_lexed, C12_lax_contains_strict.",
+        open_statements=["soundness w.r.t. the strict grammar is false on the unchanged tree exactly by the recorded findings KF6, KF7, KF9, KF11-KF16; lexical relaxations (KF13 leading-zero floats, KF14 reserved words) are outside the token-level grammar"],
     ),
 }
 
